@@ -239,7 +239,8 @@ func ResolvePatterns(pkgDir string, patterns []string) ([]FileData, error) {
 			return nil, wrapErr(fmt.Errorf("invalid pattern syntax"))
 		}
 
-		absPattern := filepath.Join(pkgDir, filepath.FromSlash(pat))
+		// Only the pattern is a glob: metacharacters in the package directory's own path are literal.
+		absPattern := quoteGlob(filepath.Clean(pkgDir)) + string(filepath.Separator) + filepath.FromSlash(pat)
 		matches, _ := filepath.Glob(absPattern)
 
 		listCount := 0
@@ -316,6 +317,22 @@ func ResolvePatterns(pkgDir string, patterns []string) ([]FileData, error) {
 		out = append(out, FileData{Name: name, Data: seen[name]})
 	}
 	return out, nil
+}
+
+// quoteGlob escapes the glob metacharacters of a literal path.
+func quoteGlob(s string) string {
+	if !strings.ContainsAny(s, `*?[]`) {
+		return s
+	}
+	var sb strings.Builder
+	for _, c := range s {
+		switch c {
+		case '*', '?', '[', ']':
+			sb.WriteByte('\\')
+		}
+		sb.WriteRune(c)
+	}
+	return sb.String()
 }
 
 func ValidPattern(pattern string) bool {
